@@ -205,6 +205,45 @@ def gen_stream(rng):
     return s
 
 
+# a forbidden name plus one byte (or one harmless component) that a receiver might normalise away AFTER it has validated
+# the name: trailing/leading CR, blank, tab, other control bytes, a `./` in front, `x/..` in front, doubled slashes
+NEAR_TAILS = [b"\r", b" ", b"\t", b"\x0b", b"\x0c", b"\x7f", b"\x00", b"\xa0", b"\\", b"/", b"/.", b"//", b"\r\r", b"\r ",
+              b";", b"%00", b"\x1b"]
+NEAR_HEADS = [b"\r", b" ", b"\t", b"./", b"x/../", b".//", b"\x00", b"\x7f", b"sub/../"]
+NEAR_CORES = [b"..", b".", b"../victim", b"../pwned", b"..", b".."]
+
+
+def near_name(rng):
+    core = rng.choice(NEAR_CORES)
+    r = rng.random()
+    if r < 0.55:
+        return core + rng.choice(NEAR_TAILS)
+    if r < 0.85:
+        return rng.choice(NEAR_HEADS) + core
+    if r < 0.93:
+        return rng.choice(NEAR_HEADS) + core + rng.choice(NEAR_TAILS)
+    i = rng.randrange(len(core) + 1)
+    return core[:i] + rng.choice([b"\r", b"\t", b" ", b"\x00"]) + core[i:]       # embedded
+
+
+def gen_near(rng):
+    """well-formed record sequences whose names are near-forbidden: a directory record with such a name, files inside
+    it (they would land outside DEST if the receiver took the name for `..`), the matching `E`, a file afterwards; or
+    a file record with such a name"""
+    p = rng.choice([0, 0, 1])
+    t = (lambda: b"T1234567890 0 1234567890 0\n") if p else (lambda: b"")
+    if rng.random() < 0.7:
+        s = t() + b"D0755 0 " + near_name(rng) + b"\n" + t() + b"C0644 5 pwned\nhello\0"
+        if rng.random() < 0.5:
+            s += t() + b"D0700 0 " + near_name(rng) + b"\n" + t() + b"C0600 3 deeper\nabc\0E\n"
+        s += b"E\n" + t() + b"C0644 2 after\nok\0"
+    else:
+        s = t() + b"C0644 5 " + near_name(rng) + b"\nhello\0" + t() + b"C0644 2 after\nok\0"
+    return dict(stream=s, dest=rng.choice([b"dest", b"dest", b"dest/sub", b"dest/", b"/o/w/dest"]), p=p, y=rng.choice([0, 1]),
+                um=rng.choice([0o22, 0o77, 0]), fd=rng.choice([0, 1]), prepop=True, destmode=0o755, fsz=0, bigold=False,
+                files=None)
+
+
 def gen_deep(rng):
     """bias towards the branches a plain run rarely takes (see evidence distribution.receiver_branches): input that
     ends 3..6 directory levels deep -- in a record, in file data, before the response byte, with times pending on
@@ -273,6 +312,12 @@ CORPUS = [
     C(b"C0600 3 ../victim\nXYZ\0"),
     C(b"T1234567890 0 1234567890 0\nD0777 0 ../vdir\nE\n", p=1),
     C(b"C0644 5 /abs/x\nhello\0"),
+    # near-forbidden names (seeded change C12-7: a trailing CR stripped after the name check)
+    C(b"D0755 0 ..\r\nC0644 5 pwned\nhello\0E\nC0644 2 after\nok\0"),
+    C(b"D0755 0 .. \nC0644 5 pwned\nhello\0E\n"),
+    C(b"D0755 0 ./..\nC0644 5 pwned\nhello\0E\n"),
+    C(b"C0644 5 ..\r\nhello\0"), C(b"C0644 5 \r..\nhello\0"), C(b"D0755 0 .\r\nC0644 5 same\nhello\0E\n"),
+    C(b"T1234567890 0 1234567890 0\nD0755 0 ..\t\nT1234567890 0 1234567890 0\nC0644 5 pwned\nhello\0E\n", p=1),
     C(b"C0644 3 old\nabc\0"),
     C(b"T1234567890 0 1234567890 0\nD6755 0 newd\nC4755 2 f\nhi\0E\nC0644 0 \n\0", p=1),
     C(b"T1234567890 0 1234567890 0\nD2775 0 newd\nD0700 0 k\nE\nE\n", um=0o27),
@@ -674,6 +719,7 @@ def run(ctx):
         import random
         rng2 = random.Random(ctx.seed * 7919 + 12)       # own stream: the cases above stay what they were
         cases += [gen_deep(rng2) for _ in range(40 if ctx.quick() else 1000)]
+        cases += [gen_near(rng2) for _ in range(60 if ctx.quick() else 2000)]
         for i in range(0, len(cases), 4000):
             run_cases(ctx, exe, cases[i:i + 4000], cnt, var, cov, dist, distinct)
         nb = 60 if ctx.quick() else 1500
